@@ -342,8 +342,15 @@ def replay(rp):
     tb.import_toolbox()
     h = rp["failing_input"]
     if "history" in h:
-        print(json.dumps(case_numeric(h))[:2000])
-        return 0
+        res = case_numeric(h)
+        print(json.dumps(res)[:1500])
+        bad = res.get("dict_unmodified") is False
+        for q in (res.get("sweep") or {}).get("queries", []):
+            bad |= any(abs(q["want"][k] - q["got"][k]) > 1e-9 * max(1.0, abs(q["want"][k])) for k in res["vars"])
+        for q in res.get("queries", []):
+            bad |= any(abs(q["want"][k] - q["got"][k]) > 1e-9 * max(1.0, abs(q["want"][k])) for k in res["vars"])
+        print("reproduced" if bad else "not reproduced")
+        return 1 if bad else 0
     real = run_real_history(h)
     bad = 0
     for op, out in zip(h["ops"], real["outs"]):
